@@ -172,6 +172,9 @@ pub const PALETTE: &[Pal] = &[
     p("(list 'quote c06-k)", "list:code-with-object", List, false, None),
     p("(list 'quote (car (list cond)))", "list:code-with-object", List, false, None),
     p("(list car ''(1 2))", "list:code-with-object", List, false, None),
+    p("(list 'quote (cons 1 car))", "list:code-with-object", List, false, None),
+    p("(list 'quote (vector 1 (list c06-k)))", "list:code-with-object", List, false, None),
+    p("(list 'quasiquote (cons 1 car))", "list:code-with-object", List, false, None),
     p("(list 'if)", "list:code", List, false, None),
     p("(list '+ 1 2)", "list:code", List, false, None),
     // procedures: builtin, variadic builtin, closures of arity 1, 0, 2 and variadic
@@ -576,6 +579,8 @@ pub const EVAL_LEXEMES: &[&str] = &[
     "string->list", "list->string", "string-copy", "substring", "exact->inexact", "sqrt", "abs", "min", "max",
     "x", "y", "f", "g", "k", "x", "f",
     "0", "1", "2", "-1", "10", "1/2", "1.5", "#t", "#f", "#\\a", "\"s\"", "\"\"", "'()", "()", "#()",
+    // literals beyond the double range, with every prefix that converts
+    "#i100000000000000000000000000000000000000000000000000000000000000000000000000000000000000000000000000000000000000000000000000000000000000000000000000000000000000000000000000000000000000000000000000000000000000000000000000000000000000000000000000000000000000000000000000000000000000000000000000000000000000000000000000000000", "#e1e400", "#i#xffffffffffffffffffffffffffffffffffffffffffffffffffffffffffffffffffffffffffffffffffffffffffffffffffffffffffffffffffffffffffffffffffffffffffffffffffffffffffffffffffffffffffffffffffffffffffffffffffffffffffffffffffffffffffffffffffffffffffffffffffffffffffffffffffffffffffffff", "#x#iffffffffffffffffffffffffffffffffffffffffffffffffffffffffffffffffffffffffffffffffffffffffffffffffffffffffffffffffffffffffffffffffffffffffffffffffffffffffffffffffffffffffffffffffffffffffffffffffffffffffffffffffffffffffffffffffffffffffffffffffffffffffffffffffffffffffffffff", "#i#b11111111111111111111111111111111111111111111111111111111111111111111111111111111111111111111111111111111111111111111111111111111111111111111111111111111111111111111111111111111111111111111111111111111111111111111111111111111111111111111111111111111111111111111111111111111111111111111111111111111111111111111111111111111111111111111111111111111111111111111111111111111111111111111111111111111111111111111111111111111111111111111111111111111111111111111111111111111111111111111111111111111111111111111111111111111111111111111111111111111111111111111111111111111111111111111111111111111111111111111111111111111111111111111111111111111111111111111111111111111111111111111111111111111111111111111111111111111111111111111111111111111111111111111111111111111111111111111111111111111111111111111111111111111111111111111111111111111111111111111111111111111111111111111111111111111111111111111111111111111111111111111111111111111111111111111111111111111111111111111111111111111111111111111111111111111111111111111111111111111111111111111111111111111111111111111111111111111111111111111111111111111111111111111", "#e1.5e-400", "100000000000000000000000000000000000000000000000000000000000000000000000000000000000000000000000000000000000000000000000000000000000000000000000000000000000000000000000000000000000000000000000000000000000000000000000000000000000000000000000000000000000000000000000000000000000000000000000000000000000000000000000000000000.5", "#i-100000000000000000000000000000000000000000000000000000000000000000000000000000000000000000000000000000000000000000000000000000000000000000000000000000000000000000000000000000000000000000000000000000000000000000000000000000000000000000000000000000000000000000000000000000000000000000000000000000000000000000000000000000000/3",
     // literals with prefixes in both cases, and character literals at the edges of the scalar range
     "#x1F", "#X1F", "#e1.5", "#E1", "#b101", "#B101", "#o17", "#D9", "#i1/2", "#e#x10", "#\\x41", "#\\x110000", "#\\x100000000", "#\\X41",
     "(lambda (x) x)", "(lambda args args)", "(define (f x)", "(define x", "(let ((x 1))", "(let loop ((x 0))", "(f x)", "(loop",
